@@ -381,8 +381,6 @@ def weave_fn(text, directives, canary=False):
                 pre = ","
             add(toks[last].end, pre + "\n" + d.body + "\n", d, order=1)
             has_spec = True
-        elif d.kind == "loop" and len(d.arg.split()) > 1 and d.arg.split()[1] == "forname" and canary:
-            pass
         elif d.kind == "loop":
             parts = d.arg.split()
             n = int(parts[0])
@@ -473,10 +471,13 @@ def weave_fn(text, directives, canary=False):
         else:
             raise Unsupported(f"unknown directive #{d.kind}")
     if canary:
-        if sh.body_open is not None:
+        # with loop_isolation(false) the loop body belongs to the same query as the function entry: an entry canary
+        # would mask the loop canaries, and a reachable loop body implies a reachable entry
+        non_isolated = any(d.kind == "attr" and "loop_isolation(false)" in d.arg for d in directives)
+        if sh.body_open is not None and not (non_isolated and loops):
             add(toks[sh.body_open].end, "\nassert(false); // CANARY body\n", Directive("canary", "body", 0), order=3)
         for li, (kw, bo, bc) in enumerate(loops):
-            if any(d.kind == "loop" and d.arg.split()[0] == str(li + 1) for d in directives):
+            if any(d.kind == "loop" and d.arg.split()[0] == str(li + 1) and len(d.arg.split()) == 1 for d in directives):
                 add(toks[bo].end, f"\nassert(false); // CANARY loop {li+1}\n", Directive("canary", f"loop {li+1}", 0), order=3)
     # apply: edits are replacements of original text, ins are pure insertions carrying a directive
     pieces = []  # (start, end, replacement, directive_or_None)
